@@ -245,8 +245,19 @@ Definition violation (c : case) : option string :=
       (* 3, 4: a message the node built with a genuine signature of its own key verifies to
          its own address *)
       match inner c with
-      | Ok _ => if signer_genuine c && negb (outcome_eqb (obs c) (Ok (own c)))
-                then Some "own-message-rejected"%string else None
+      | Ok ds =>
+          if signer_genuine c && negb (outcome_eqb (obs c) (Ok (own c)))
+          then Some "own-message-rejected"%string
+          else
+            (* and the bid the node built and then accepted must itself be soundly accepted:
+               its digest is the specification's digest of the fields it was built from *)
+            match kind c, m_bid (cur c), obs c with
+            | 3, Some f, Ok a =>
+                bid_acceptance_defect (table c)
+                  {| b_tx := b_tx f; b_amt := b_amt f; b_bn := b_bn f; b_ds := b_ds f; b_de := b_de f;
+                     b_dig := Some (firstn 32 ds); b_sig := Some (skipn 32 ds) |} a
+            | _, _, _ => None
+            end
       | _ => None
       end
   end.
